@@ -112,7 +112,7 @@ def c20(res, st):
         inputs.append(gens.token_soup(rnd, rnd.randrange(1, 12)).replace(b" ", rnd.choice([b" ", b"\n", b"\r\n"])))
     inputs += gens.regression("C20")
     # multi-byte characters on the line of a PARSER error (columns count bytes), and sentences with such characters damaged at every place
-    inputs += gens.MULTIBYTE_BEFORE_ERROR
+    inputs += gens.MULTIBYTE_BEFORE_ERROR + gens.MULTILINE_ERRORS
     for base in (b"SELECT '\xc3\xa9' AS `\xe6\x97\xa5` , f ( \"\xf0\x9f\x98\x80\" ) /* \xc3\xa9 */ FROM t WHERE a = '\xe2\x82\xac' ORDER BY 1",):
         toks = base.split(b" ")
         for i in range(len(toks)):
